@@ -5,6 +5,7 @@ import (
 	"context"
 	"errors"
 	"fmt"
+	"sync"
 	"sync/atomic"
 	"testing"
 	"time"
@@ -599,6 +600,92 @@ func TestThresholdFromStart(t *testing.T) {
 		ctx.Nontrivial("threshold-from-start-a")
 		ctx.Nontrivial("threshold-from-start-b")
 		ctx.Sample(map[string]any{"runs": 6, "secondary_won_at_threshold": conclusive})
+		return nil
+	})
+}
+
+// Pooled threshold timers: a call whose timer expires at the very moment it is given back to the pool must not leave a
+// tick behind for the next call that takes the timer. Workers alternate a "racer" call (threshold 1 ms, primary
+// fails at once, the secondary runs for about the threshold, so its deferred release of the timer races with the
+// expiry; 1 ms is the smallest configurable threshold) with a "probe" call (threshold 1 h, primary pending: the secondary must not be started).
+type spin struct {
+	name string
+	d    time.Duration
+}
+
+func (s *spin) Exec(ctx context.Context, q *query_context.Context) error {
+	t0 := time.Now()
+	for time.Since(t0) < s.d {
+	}
+	r := new(dns.Msg)
+	r.SetReply(q.Q())
+	r.Answer = []dns.RR{&dns.TXT{Hdr: dns.RR_Header{Name: q.Q().Question[0].Name, Rrtype: dns.TypeTXT, Class: dns.ClassINET, Ttl: 60}, Txt: []string{"from-" + s.name}}}
+	q.SetResponse(r)
+	return nil
+}
+
+func TestStressPooledTimer(t *testing.T) {
+	n := 4000
+	if hx.Thorough() {
+		n = 150000
+	}
+	man := hx.NewManual(t, false, fmt.Sprintf("8 workers x %d rounds: racer call (threshold 1 ms, secondary busy for 0.96..1.04 ms, so the timer expires while it is released) then probe call (threshold 1 h, primary pending 200 us): the probe's secondary must not start", n/8))
+	man.Case("pooled-timer", func(ctx *hx.Ctx) *hx.Failure {
+		var early, hangs atomic.Int64
+		var wg sync.WaitGroup
+		for w := 0; w < 8; w++ {
+			wg.Add(1)
+			go func(w int) {
+				defer wg.Done()
+				for i := 0; i < n/8; i++ {
+					d := time.Duration(960+(i*7+w*13)%80) * time.Microsecond // around the smallest configurable threshold, 1 ms
+					// racer
+					p := &gated{name: "primary", outcome: "error", gate: make(chan struct{})}
+					close(p.gate)
+					s := &spin{name: "secondary", d: d}
+					m := coremain.NewTestMosdnsWithPlugins(map[string]any{"p": sequence.Executable(p), "s": sequence.Executable(s)})
+					fb, err := fallback.Init(coremain.NewBP("fb", m), &fallback.Args{Primary: "p", Secondary: "s", Threshold: 1, AlwaysStandby: false})
+					if err != nil {
+						return
+					}
+					q := new(dns.Msg)
+					q.SetQuestion("racer.c20.test.", dns.TypeA)
+					if errors.Is(execBounded(fb.(sequence.Executable), query_context.NewContext(q)), errHang) {
+						hangs.Add(1)
+						return
+					}
+					// probe
+					p2 := &gated{name: "primary", outcome: "answer", gate: make(chan struct{})}
+					s2 := &gated{name: "secondary", outcome: "answer", gate: make(chan struct{})}
+					close(s2.gate)
+					m2 := coremain.NewTestMosdnsWithPlugins(map[string]any{"p": sequence.Executable(p2), "s": sequence.Executable(s2)})
+					fb2, err := fallback.Init(coremain.NewBP("fb", m2), &fallback.Args{Primary: "p", Secondary: "s", Threshold: 3600 * 1000, AlwaysStandby: false})
+					if err != nil {
+						return
+					}
+					go func() { time.Sleep(200 * time.Microsecond); close(p2.gate) }()
+					q2 := new(dns.Msg)
+					q2.SetQuestion("probe.c20.test.", dns.TypeA)
+					if errors.Is(execBounded(fb2.(sequence.Executable), query_context.NewContext(q2)), errHang) {
+						hangs.Add(1)
+						return
+					}
+					if s2.started.Load() {
+						early.Add(1)
+					}
+				}
+			}(w)
+		}
+		wg.Wait()
+		if hangs.Load() > 0 {
+			return hx.Failf("C20/hang", "pooled-timer stress: %d calls did not return within 10 s", hangs.Load())
+		}
+		if early.Load() > 0 {
+			return hx.Failf("C20/secondary-started-early", "always_standby off, threshold 1 h, primary pending for 200 us and then answering: in %d of %d probe calls the secondary was started - the threshold timer taken from the pool fired at once (a tick left behind by an earlier call whose timer expired while it was released)", early.Load(), n)
+		}
+		ctx.Nontrivial("pooled-timer-a")
+		ctx.Nontrivial("pooled-timer-b")
+		ctx.Sample(map[string]any{"rounds": n, "secondary_started_early": 0})
 		return nil
 	})
 }
